@@ -48,7 +48,7 @@ PROPS["C20"] = {
 }
 
 PROPS["C01"] = {
-    "engines": ["S"],
+    "engines": ["K", "S"],
     "bounds": [],
     "outside_bounds": [],
     "stubs": [],
@@ -97,6 +97,15 @@ PROPS["C08"] = {
     "explanation": "",
 }
 PROPS["C16"] = {
+    "engines": ["S"],
+    "bounds": [],
+    "outside_bounds": [],
+    "stubs": [],
+    "assumptions": [],
+    "explanation": "",
+}
+
+PROPS["C09"] = {
     "engines": ["S"],
     "bounds": [],
     "outside_bounds": [],
